@@ -1464,7 +1464,7 @@ def framing_order(prog, rep):
                 for a in m.args:
                     t = norm(a) if a is not None else None
                     if t is not None and t[0] == "&" and t[1][0] == "[]":
-                        pos = t[1][2]
+                        pos = rh.expand(t[1][2])
             rep.check(bool(mc) and pos is not None and ln in (("+", pos, ("c", 4)), ("+", ("c", 4), pos)), "W3-framing",
                       "the header block is everything up to and including the blank line that was found", c.where,
                       "length handed to gotheaders: %s; terminator found at %s, four bytes long" % (show(ln) if ln else "?", show(pos) if pos else "?"),
